@@ -144,6 +144,13 @@ Digit(ch) == CASE ch = "0" -> 0 [] ch = "1" -> 1 [] ch = "2" -> 2 [] ch = "3" ->
 ChunkK == IF "C39_CHUNK_K" \in DOMAIN IOEnv THEN Digit(IOEnv.C39_CHUNK_K) ELSE 0
 ChunkN == IF "C39_CHUNK_N" \in DOMAIN IOEnv THEN Digit(IOEnv.C39_CHUNK_N) ELSE 1
 
+(* one TLC state per case: the machine runs to completion inside one transition; the machine      *)
+(* invariants are evaluated at every step of the run (status "broken" if one fails => Inv fails).  *)
+RECURSIVE RunChk(_)
+RunChk(mm) == IF mm.phase = "done" THEN mm
+              ELSE IF ~MachineOk(mm) THEN [mm EXCEPT !.phase = "done", !.status = "broken"]
+              ELSE RunChk(StepD(mm))
+
 VARIABLE m
 Init == m = [phase |-> "gen"]
 PickCase ==
@@ -154,11 +161,10 @@ PickCase ==
 PickQuery ==
   /\ m.phase = "case"
   /\ \E qq \in Queries(m.cs) :
-       m' = LoadD(m.cs.gram, Helpers, qq.q) @@ [qk |-> qq.qk, kind |-> m.cs.kind]
-Run1 == m.phase = "run" /\ m' = StepD(m)
-Next == PickCase \/ PickQuery \/ Run1
+       m' = RunChk(LoadD(m.cs.gram, Helpers, qq.q) @@ [qk |-> qq.qk, kind |-> m.cs.kind])
+Next == PickCase \/ PickQuery
 
-Inv == m.phase \in {"run", "done"} => MachineOk(m) /\ CollectorsOk(m)
+Inv == m.phase = "done" => m.status # "broken" /\ CollectorsOk(m)
 
 Emit == m.phase = "done" /\ m.status \in {"done", "exc", "capped"} =>
           PrintT(ToJson([gram |-> m.gram, q |-> m.q, qv |-> m.qv, qk |-> m.qk, kind |-> m.kind,
